@@ -31,6 +31,16 @@ def main():
         json.dump(res, f, default=str)
     os.replace(outpath + ".tmp", outpath)
     sys.stdout.flush()
+    if os.environ.get("COVERAGE_PROCESS_START"):  # development aid (tools/coverage.sh)
+        try:
+            import coverage
+
+            c = coverage.Coverage.current()
+            if c is not None:
+                c.stop()
+                c.save()
+        except Exception:
+            pass
     # skip interpreter teardown (atexit rmtree of cubed context dirs is done by the driver's
     # removal of the whole work root)
     os._exit(0)
